@@ -16,15 +16,23 @@ def main():
             "guard": "verif",
             "enable": "cd /repo && go test -c -vet=off -tags verif -modfile=<scratch>/go.mod -overlay=<scratch>/overlay.json <pkg>  "
                       "(harness sources live under /verif/harness/overlay and are injected with -overlay; every file carries //go:build verif; "
-                      "no hook is committed in /repo)",
+                      "no hook is committed in /repo). Two checks compile a textually rewritten copy of a CURRENT /repo file, made at check time "
+                      "and failing loudly (BROKEN-CHECK) if the expected text is not there: C08 replaces the \"sync\" import of "
+                      "internal/outputstream/outputstream.go by the cooperative scheduler harness/overlay/internal/verifsync; C20 inserts a call to "
+                      "verifYield() (harness/overlay/internal/api/verif_yield.go) at the entry of the three accessors of api.HTTP in internal/api/api.go",
             "baseline_off_cmd": "cd /repo && GOFLAGS=-mod=mod GOPROXY=off GOSUMDB=off GOTOOLCHAIN=local go test -json -vet=off -count=1 -timeout 25m ./...",
             "source_commits": [],
             "add_only": True,
         },
         "engines": [
             {"name": "irc-history-engine", "path": "harness/overlay/internal/ircserver/verif_engine_test.go",
-             "serves_properties": [p for p in ["C01", "C03", "C06", "C12", "C13", "C14", "C15", "C17"] if p in checks.CHECKS],
-             "kind_free_text": "seeded entry histories applied to the real IRCServer; monitors over (View before, replies, View after)"},
+             "serves_properties": [p for p in ["C01", "C03", "C06", "C10", "C12", "C13", "C14", "C15", "C17"] if p in checks.CHECKS],
+             "kind_free_text": "seeded entry histories applied to the real IRCServer; monitors over (View before, replies, View after); "
+                               "second layer through the real FSM glue: harness/overlay/verif_engine_main_test.go"},
+            {"name": "three-binary-cluster", "path": "cluster/main.go",
+             "serves_properties": [p for p in ["C05", "C07", "C11", "C17", "C19", "C20"] if p in checks.CHECKS],
+             "kind_free_text": "three real robustirc binaries built from /repo on localhost (TLS): fault rounds, -mod (message of death), -lag (follower "
+                               "brought back by InstallSnapshot), -auth (non-public routes), -safeguard (restart against fake peers)"},
         ],
         "checks": [],
         "not_applicable": [],
